@@ -21,20 +21,16 @@ TwoStepEv(e) ==
   ELSE /\ (e.res => Judge(e.a, e.b, e.store1, e))
        /\ (e.res2 => Judge(e.a2, e.b2, e.store, e))
        /\ ((e.res /\ e.res2 /\ Acyclic(e.a, e.b, e.store) /\ ~Consistent(e.a, e.b, e.store, <<>>)) => Print(<<"TRACE-NOTE", l, "chain: first pair no longer equal after the second call">>, TRUE))
+\* the clauses are judged independently (an observation may break several statements; every check filters by its own tag)
 UnifyEv(e) ==
   IF "panic" \in DOMAIN e THEN Bad(<<"C14", "unify panicked">>)
-  ELSE IF e.ctx_after # 0 THEN Bad(<<"C18", "the definitions context was not restored">>)
-  ELSE IF e.res /\ e.kind = "conv-no" THEN Bad(<<"C06", "terms with different normal forms are judged equal", "swap", e.swap>>)
-  ELSE IF e.res THEN
-     (IF ~Acyclic(e.a, e.b, e.store) THEN Bad(<<"C12", "a hole is solved by a term containing itself", e.kind>>)
-      ELSE IF ~ScopeSafe(e.a, e.b, e.store, 0) THEN Bad(<<"C12", "a solution mentions a variable that is not in scope where its hole was written", e.kind>>)
-      ELSE IF ~Consistent(e.a, e.b, e.store, <<>>) THEN
-           Bad(<<"C12", "success, but filling the holes does not make the terms equal", e.kind, "holes_opened", e.holes_opened,
-                 "modulo_unsolved", ConsistentModuloUnsolved(e.a, e.b, e.store, <<>>)>>)
-      ELSE TRUE)
-  ELSE IF e.kind = "reduct" THEN Bad(<<"C12", "a hole-free term does not unify with itself / its reduct">>)
-  ELSE IF e.kind = "conv-yes" THEN Bad(<<"C06", "terms with the same normal form are judged different", "swap", e.swap>>)
-  ELSE TRUE
+  ELSE
+  /\ IF e.ctx_after # 0 THEN Bad(<<"C18", "the definitions context was not restored">>) ELSE TRUE
+  /\ IF e.res /\ e.kind = "conv-no" THEN Bad(<<"C06", "terms with different normal forms are judged equal", "swap", e.swap>>) ELSE TRUE
+  /\ IF ~e.res /\ e.kind = "conv-yes" THEN Bad(<<"C06", "terms with the same normal form are judged different", "swap", e.swap>>) ELSE TRUE
+  /\ IF e.res THEN Judge(e.a, e.b, e.store, e)
+     ELSE IF e.kind = "reduct" THEN Bad(<<"C12", "a hole-free term does not unify with itself / its reduct">>)
+     ELSE TRUE
 TInit == l = 1
 TNext == l <= Len(Rec) /\ l' = l + 1 /\ (IF Rec[l].ev = "unify" THEN UnifyEv(Rec[l]) ELSE IF Rec[l].ev = "unify2" THEN TwoStepEv(Rec[l]) ELSE Bad(<<"tool", "unknown event">>))
 TSpec == TInit /\ [][TNext]_l
